@@ -8,7 +8,9 @@ use zarrs::array::{ArrayBuilder, ArraySubset};
 use zarrs::group::GroupBuilder;
 use zarrs::storage::{ReadableWritableListableStorage, ReadableWritableListableStorageTraits};
 
-use super::common::{Chunk, SampleBuffer, SampleBufferValue, value_to_zarr_coord_params};
+use super::common::{
+    Chunk, SampleBuffer, SampleBufferValue, event_counts, value_to_zarr_coord_params,
+};
 use super::create_arrays;
 use crate::storage::{ChainStorage, StorageConfig, TraceStorage};
 use crate::{Math, Progress, Settings};
@@ -235,17 +237,7 @@ impl ChainStorage for ZarrChainStorage {
     ) -> Result<()> {
         let is_first_draw = self.last_sample_was_warmup && !info.tuning;
         if is_first_draw {
-            {
-                let mut seen = std::collections::HashSet::new();
-                for (field, dim) in &self.event_dim_of_stat {
-                    if seen.insert(dim.as_str()) {
-                        if let Some(buf) = self.stats_buffers.get(field.as_str()) {
-                            self.warmup_event_counts
-                                .insert(dim.clone(), buf.total_pushed());
-                        }
-                    }
-                }
-            }
+            self.warmup_event_counts = event_counts(&self.event_dim_of_stat, &self.stats_buffers);
             for (key, buffer) in self.draw_buffers.iter_mut() {
                 if let Some(chunk) = buffer.reset() {
                     store_zarr_chunk(&self.arrays.warmup_draw_arrays[key], chunk, self.chain)?;
@@ -276,15 +268,13 @@ impl ChainStorage for ZarrChainStorage {
 
     /// Flush remaining samples and finalize storage
     fn finalize(self) -> Result<Self::Finalized> {
-        let mut seen = std::collections::HashSet::new();
-        let mut sample_counts: HashMap<String, u64> = HashMap::new();
-        for (field, dim) in &self.event_dim_of_stat {
-            if seen.insert(dim.as_str()) {
-                if let Some(buf) = self.stats_buffers.get(field.as_str()) {
-                    sample_counts.insert(dim.clone(), buf.total_pushed());
-                }
-            }
-        }
+        // Events recorded since the last reset belong to the phase the chain is in.
+        let current_counts = event_counts(&self.event_dim_of_stat, &self.stats_buffers);
+        let (warmup_event_counts, sample_counts) = if self.last_sample_was_warmup {
+            (current_counts, HashMap::new())
+        } else {
+            (self.warmup_event_counts.clone(), current_counts)
+        };
 
         for (key, mut buffer) in self.draw_buffers.into_iter() {
             if let Some(chunk) = buffer.reset() {
@@ -313,11 +303,7 @@ impl ChainStorage for ZarrChainStorage {
             .collect::<std::collections::HashSet<_>>()
             .into_iter()
             .map(|dim| {
-                let w = self
-                    .warmup_event_counts
-                    .get(dim.as_str())
-                    .copied()
-                    .unwrap_or(0);
+                let w = warmup_event_counts.get(dim.as_str()).copied().unwrap_or(0);
                 let s = sample_counts.get(dim.as_str()).copied().unwrap_or(0);
                 (dim.clone(), (w, s))
             })
@@ -326,22 +312,21 @@ impl ChainStorage for ZarrChainStorage {
     }
 
     fn inspect(&self) -> Result<Option<Self::Finalized>> {
-        let mut seen = std::collections::HashSet::new();
+        let current_counts = event_counts(&self.event_dim_of_stat, &self.stats_buffers);
         let mut counts = HashMap::new();
-        for (field, dim) in &self.event_dim_of_stat {
-            if seen.insert(dim.as_str()) {
-                let s = self
-                    .stats_buffers
-                    .get(field.as_str())
-                    .map(|b| b.total_pushed())
-                    .unwrap_or(0);
+        for dim in self.event_dim_of_stat.values() {
+            let current = current_counts.get(dim.as_str()).copied().unwrap_or(0);
+            let (w, s) = if self.last_sample_was_warmup {
+                (current, 0)
+            } else {
                 let w = self
                     .warmup_event_counts
                     .get(dim.as_str())
                     .copied()
                     .unwrap_or(0);
-                counts.insert(dim.clone(), (w, s));
-            }
+                (w, current)
+            };
+            counts.insert(dim.clone(), (w, s));
         }
         Ok(Some(counts))
     }
